@@ -47,94 +47,229 @@ func ipcConsts(f *ast.File) map[string]string {
 	return out
 }
 
-// branchAction summarises the body of an if branch: `resp.Error = X` -> "error:X",
-// `client.f = e` -> "assign:client.f=e"; anything else is spelled out.
-func branchAction(b *ast.BlockStmt) string {
+// All expression text is normalised first (normalise.go): roles instead of identifier names,
+// constants replaced by their values, operands ordered — so renaming a local, the receiver or a
+// parameter, hoisting a literal into a constant, flipping a comparison or reordering a
+// conjunction leaves the generated facts unchanged.
+
+var ipcParamRoles = map[string]string{"IPCClient": "$client", "requestHeader": "$hdr", "string": "$command", "uint64": "$seq"}
+var ipcLocalTypes = map[string]string{"responseHeader": "$resp", "handshakeRequest": "$req", "authRequest": "$req"}
+var ipcLocalDefs = map[string]string{"$hdr.Command": "$command", "$hdr.Seq": "$seq"}
+
+func ipcEnv(f *ast.File, fd *ast.FuncDecl) *nenv {
+	env := newEnv(constLiterals(f, fd)).withHelpers(f)
+	env.bindSignature(fd, "$ipc", ipcParamRoles)
+	env.bindLocals(fd.Body, ipcLocalTypes, ipcLocalDefs)
+	return env
+}
+
+func unq(s string) string {
+	if u, err := strconv.Unquote(s); err == nil {
+		return u
+	}
+	return s
+}
+
+// branchAction summarises a branch: `$resp.Error = X` -> "error:<text of X>", `a = b` -> "assign:a=b".
+// A trailing `return $client.Send(&$resp, nil)` is reported separately.
+func branchAction(env *nenv, list []ast.Stmt) (string, bool) {
 	var parts []string
-	for _, st := range b.List {
+	returnsSend := false
+	for i, st := range list {
 		if as, ok := st.(*ast.AssignStmt); ok && len(as.Lhs) == 1 && len(as.Rhs) == 1 && as.Tok == token.ASSIGN {
-			l, r := exprString(as.Lhs[0]), exprString(as.Rhs[0])
-			if l == "resp.Error" {
-				parts = append(parts, "error:"+r)
+			l, r := env.expr(as.Lhs[0]), env.expr(as.Rhs[0])
+			if l == "$resp.Error" {
+				parts = append(parts, "error:"+unq(r))
 			} else {
 				parts = append(parts, "assign:"+l+"="+r)
 			}
 			continue
 		}
+		if r, ok := st.(*ast.ReturnStmt); ok && i == len(list)-1 && len(r.Results) == 1 && env.expr(r.Results[0]) == "$client.Send(&$resp, nil)" {
+			returnsSend = true
+			continue
+		}
 		parts = append(parts, "stmt:"+fmt.Sprintf("%T", st))
 	}
-	return strings.Join(parts, ";")
+	return strings.Join(parts, ";"), returnsSend
 }
 
-// ifChain flattens if / else if / else into (condition, action) pairs; the final else has condition "else".
-func ifChain(is *ast.IfStmt) [][2]string {
-	var out [][2]string
-	for {
-		if is.Init != nil {
-			out = append(out, [2]string{"<init>", "unsupported"})
-		}
-		out = append(out, [2]string{exprString(is.Cond), branchAction(is.Body)})
-		switch e := is.Else.(type) {
-		case nil:
-			return out
+// decisionChain normalises the decision part of handleHandshake / handleAuth into
+// (condition, action) pairs ending with ("else", action).  Accepted spellings:
+//   if c1 {a1} else if c2 {a2} else {a3}; return Send        (non-returning branches)
+//   if c1 {a1; return Send}; if c2 {a2; return Send}; a3; return Send    (early returns)
+// and a two-way decision written with the negated condition is turned round.  Anything else —
+// in particular a statement between the checks — is reported with a "seq:" marker and matches
+// no canonical chain.
+func decisionChain(env *nenv, fd *ast.FuncDecl) ([][2]string, error) {
+	var chain [][2]string
+	var stmts []ast.Stmt
+	for _, st := range fd.Body.List {
+		switch s := st.(type) {
+		case *ast.DeclStmt:
+			continue
 		case *ast.IfStmt:
-			is = e
-		case *ast.BlockStmt:
-			return append(out, [2]string{"else", branchAction(e)})
-		default:
-			return append(out, [2]string{"else", "unsupported"})
+			if s.Init != nil && s.Else == nil {
+				continue // `if err := $client.dec.Decode(&$req); err != nil { return … }`
+			}
+		case *ast.AssignStmt:
+			if s.Tok == token.DEFINE && len(s.Lhs) == 1 && env.expr(s.Lhs[0]) == "$resp" {
+				continue // resp := responseHeader{…}
+			}
+		}
+		stmts = append(stmts, st)
+	}
+	if len(stmts) == 0 {
+		return nil, fmt.Errorf("%s: no decision", fd.Name.Name)
+	}
+	last, ok := stmts[len(stmts)-1].(*ast.ReturnStmt)
+	if !ok || len(last.Results) != 1 || env.expr(last.Results[0]) != "$client.Send(&$resp, nil)" {
+		return nil, fmt.Errorf("%s: does not end with `return client.Send(&resp, nil)`", fd.Name.Name)
+	}
+	stmts = stmts[:len(stmts)-1]
+	// spelling 1: one if/else-if/else chain
+	if len(stmts) == 1 {
+		if is, ok := stmts[0].(*ast.IfStmt); ok && is.Init == nil && is.Else != nil {
+			for {
+				a, ret := branchAction(env, is.Body.List)
+				if ret {
+					a += ";return"
+				}
+				chain = append(chain, [2]string{env.expr(is.Cond), a})
+				if e, ok := is.Else.(*ast.IfStmt); ok && e.Init == nil {
+					is = e
+					continue
+				}
+				if b, ok := is.Else.(*ast.BlockStmt); ok {
+					a, ret := branchAction(env, b.List)
+					if ret {
+						a += ";return"
+					}
+					chain = append(chain, [2]string{"else", a})
+				} else if is.Else != nil {
+					chain = append(chain, [2]string{"else", "unsupported"})
+				} else {
+					chain = append(chain, [2]string{"else", ""})
+				}
+				break
+			}
+			return turnRound(chain), nil
 		}
 	}
+	// spelling 2: early returns, then the remaining actions
+	i := 0
+	for ; i < len(stmts); i++ {
+		is, ok := stmts[i].(*ast.IfStmt)
+		if !ok || is.Init != nil || is.Else != nil {
+			break
+		}
+		a, ret := branchAction(env, is.Body.List)
+		if !ret {
+			break
+		}
+		chain = append(chain, [2]string{env.expr(is.Cond), a})
+	}
+	rest, ret := branchAction(env, stmts[i:])
+	hasIf := false
+	for _, st := range stmts[i:] {
+		if _, ok := st.(*ast.IfStmt); ok {
+			hasIf = true
+		}
+	}
+	if ret || hasIf {
+		// an unconditional statement between the checks, or a non-returning check after one: spell it out
+		var seq [][2]string
+		for _, c := range chain {
+			seq = append(seq, [2]string{"seq:if " + c[0], c[1] + ";return"})
+		}
+		for _, st := range stmts[i:] {
+			if is, ok := st.(*ast.IfStmt); ok && is.Init == nil {
+				a, r := branchAction(env, is.Body.List)
+				if r {
+					a += ";return"
+				}
+				seq = append(seq, [2]string{"seq:if " + env.expr(is.Cond), a})
+				if is.Else != nil {
+					seq = append(seq, [2]string{"seq:else", "…"})
+				}
+				continue
+			}
+			a, _ := branchAction(env, []ast.Stmt{st})
+			seq = append(seq, [2]string{"seq:do", a})
+		}
+		return seq, nil
+	}
+	chain = append(chain, [2]string{"else", rest})
+	return turnRound(chain), nil
+}
+
+// turnRound: `if a != b {X} else {Y}` and `if !c {X} else {Y}` are reported as the positive test.
+func turnRound(chain [][2]string) [][2]string {
+	if len(chain) != 2 || chain[1][0] != "else" {
+		return chain
+	}
+	c := chain[0][0]
+	if strings.ContainsAny(c, "&|") {
+		return chain
+	}
+	switch {
+	case strings.HasPrefix(c, "!"):
+		return [][2]string{{c[1:], chain[1][1]}, {"else", chain[0][1]}}
+	case strings.Contains(c, " != "):
+		return [][2]string{{strings.Replace(c, " != ", " == ", 1), chain[1][1]}, {"else", chain[0][1]}}
+	}
+	return chain
 }
 
 type gateFacts struct {
-	cond, errConst string
-	closes         bool
+	cond, errText string
+	closes        bool
 }
 
-// gateOf reads `if cond { respHeader := responseHeader{Seq: seq, Error: X}; client.Send(&respHeader, nil); return <e> }`.
-func gateOf(is *ast.IfStmt) (gateFacts, error) {
-	g := gateFacts{cond: exprString(is.Cond)}
+// gateOf reads `if cond { <build a responseHeader with Error X>; $client.Send(…, nil); return <e> }`.
+func gateOf(env *nenv, is *ast.IfStmt) (gateFacts, error) {
+	g := gateFacts{cond: env.expr(is.Cond)}
 	if is.Init != nil || is.Else != nil {
 		return g, fmt.Errorf("gate with init/else")
 	}
 	sent := false
-	for _, st := range is.Body.List {
-		switch s := st.(type) {
-		case *ast.AssignStmt:
-			if len(s.Rhs) == 1 {
-				if cl, ok := s.Rhs[0].(*ast.CompositeLit); ok {
-					for _, el := range cl.Elts {
-						if kv, ok := el.(*ast.KeyValueExpr); ok && exprString(kv.Key) == "Error" {
-							g.errConst = exprString(kv.Value)
-						}
-					}
+	ast.Inspect(is.Body, func(n ast.Node) bool {
+		if cl, ok := n.(*ast.CompositeLit); ok && typeName(cl.Type) == "responseHeader" {
+			for _, el := range cl.Elts {
+				if kv, ok := el.(*ast.KeyValueExpr); ok && exprString(kv.Key) == "Error" {
+					g.errText = unq(env.expr(kv.Value))
 				}
 			}
+		}
+		return true
+	})
+	for _, st := range is.Body.List {
+		switch s := st.(type) {
+		case *ast.AssignStmt, *ast.DeclStmt:
 		case *ast.ExprStmt:
 			c, ok := s.X.(*ast.CallExpr)
 			if !ok {
 				return g, fmt.Errorf("gate: unexpected statement")
 			}
-			fn := exprString(c.Fun)
-			if fn == "client.Send" {
-				if len(c.Args) != 2 || exprString(c.Args[1]) != "nil" {
+			fn := env.expr(c.Fun)
+			if fn == "$client.Send" {
+				if len(c.Args) != 2 || env.expr(c.Args[1]) != "nil" {
 					return g, fmt.Errorf("gate reply carries a body")
 				}
 				sent = true
-			} else if !strings.HasPrefix(fn, "i.logger.") {
+			} else if !strings.HasPrefix(fn, "$ipc.logger.") {
 				return g, fmt.Errorf("gate: unexpected call %s", fn)
 			}
 		case *ast.ReturnStmt:
 			if len(s.Results) != 1 {
 				return g, fmt.Errorf("gate: return shape")
 			}
-			g.closes = exprString(s.Results[0]) != "nil"
+			g.closes = env.expr(s.Results[0]) != "nil"
 		default:
 			return g, fmt.Errorf("gate: unexpected statement %T", st)
 		}
 	}
-	if !sent || g.errConst == "" {
+	if !sent || g.errText == "" {
 		return g, fmt.Errorf("gate without error reply")
 	}
 	return g, nil
@@ -145,7 +280,7 @@ func genIpcGate(repo string) (string, error) {
 	if err != nil {
 		return "", err
 	}
-	consts := ipcConsts(f)
+	consts := constLiterals(f, nil)
 	q := func(s string) string { return strconv.Quote(s) }
 
 	// ---- handleRequest
@@ -153,6 +288,7 @@ func genIpcGate(repo string) (string, error) {
 	if hr == nil {
 		return "", fmt.Errorf("handleRequest not found")
 	}
+	henv := ipcEnv(f, hr)
 	var gates []gateFacts
 	var sw *ast.SwitchStmt
 	for _, st := range hr.Body.List {
@@ -161,17 +297,20 @@ func genIpcGate(repo string) (string, error) {
 			if sw != nil {
 				return "", fmt.Errorf("handleRequest: if after the dispatch switch")
 			}
-			g, err := gateOf(s)
+			g, err := gateOf(henv, s)
 			if err != nil {
 				return "", err
 			}
 			gates = append(gates, g)
 		case *ast.SwitchStmt:
+			if sw != nil {
+				return "", fmt.Errorf("handleRequest: more than one switch")
+			}
 			sw = s
 		}
 	}
-	if len(gates) != 2 || sw == nil || exprString(sw.Tag) != "command" {
-		return "", fmt.Errorf("handleRequest: expected two gates and a switch on command (got %d gates)", len(gates))
+	if len(gates) != 2 || sw == nil || henv.expr(sw.Tag) != "$command" {
+		return "", fmt.Errorf("handleRequest: expected two gates and a switch on the command (got %d gates)", len(gates))
 	}
 	type disp struct {
 		cmd, handler string
@@ -181,18 +320,19 @@ func genIpcGate(repo string) (string, error) {
 	for _, cc := range sw.Body.List {
 		c := cc.(*ast.CaseClause)
 		if c.List == nil {
-			for _, st := range c.Body {
-				if as, ok := st.(*ast.AssignStmt); ok && len(as.Rhs) == 1 {
-					if cl, ok := as.Rhs[0].(*ast.CompositeLit); ok {
-						for _, el := range cl.Elts {
-							if kv, ok := el.(*ast.KeyValueExpr); ok && exprString(kv.Key) == "Error" {
-								defaultErr = exprString(kv.Value)
-							}
+			ast.Inspect(c, func(n ast.Node) bool {
+				if cl, ok := n.(*ast.CompositeLit); ok && typeName(cl.Type) == "responseHeader" {
+					for _, el := range cl.Elts {
+						if kv, ok := el.(*ast.KeyValueExpr); ok && exprString(kv.Key) == "Error" {
+							defaultErr = unq(henv.expr(kv.Value))
 						}
 					}
 				}
+				return true
+			})
+			for _, st := range c.Body {
 				if r, ok := st.(*ast.ReturnStmt); ok && len(r.Results) == 1 {
-					defaultCloses = exprString(r.Results[0]) != "nil"
+					defaultCloses = henv.expr(r.Results[0]) != "nil"
 				}
 			}
 			continue
@@ -213,131 +353,120 @@ func genIpcGate(repo string) (string, error) {
 			return "", fmt.Errorf("dispatch callee shape")
 		}
 		for _, e := range c.List {
-			name := exprString(e)
-			v, ok := consts[name]
-			if !ok {
-				return "", fmt.Errorf("dispatch on unknown constant %s", name)
+			v := henv.expr(e)
+			if !isLitText(v) {
+				return "", fmt.Errorf("dispatch on a non-constant %s", v)
 			}
-			table = append(table, disp{v, sel.Sel.Name})
+			table = append(table, disp{unq(v), sel.Sel.Name})
 		}
 	}
 
 	// ---- handlers: body decoded? response body sent?
 	type hinfo struct{ decodes, data bool }
 	handlers := map[string]hinfo{}
+	writes := map[string]int{}
 	for _, d := range f.Decls {
 		fd, ok := d.(*ast.FuncDecl)
-		if !ok || fd.Body == nil || !strings.HasPrefix(fd.Name.Name, "handle") {
+		if !ok || fd.Body == nil {
 			continue
 		}
+		env := ipcEnv(f, fd)
 		var hi hinfo
 		ast.Inspect(fd.Body, func(n ast.Node) bool {
-			c, ok := n.(*ast.CallExpr)
-			if !ok {
-				return true
-			}
-			switch exprString(c.Fun) {
-			case "client.dec.Decode":
-				hi.decodes = true
-			case "client.Send":
-				if len(c.Args) == 2 && exprString(c.Args[1]) != "nil" {
-					hi.data = true
+			switch s := n.(type) {
+			case *ast.CallExpr:
+				switch env.expr(s.Fun) {
+				case "$client.dec.Decode":
+					hi.decodes = true
+				case "$client.Send":
+					if len(s.Args) == 2 && env.expr(s.Args[1]) != "nil" {
+						hi.data = true
+					}
+				}
+			case *ast.AssignStmt:
+				for _, l := range s.Lhs {
+					if sel, ok := l.(*ast.SelectorExpr); ok && (sel.Sel.Name == "version" || sel.Sel.Name == "didAuth") {
+						writes[sel.Sel.Name]++
+					}
+				}
+			case *ast.IncDecStmt:
+				if sel, ok := s.X.(*ast.SelectorExpr); ok && (sel.Sel.Name == "version" || sel.Sel.Name == "didAuth") {
+					writes[sel.Sel.Name]++
+				}
+			case *ast.UnaryExpr:
+				if sel, ok := s.X.(*ast.SelectorExpr); ok && s.Op == token.AND && (sel.Sel.Name == "version" || sel.Sel.Name == "didAuth") {
+					writes[sel.Sel.Name] += 100 // address taken
 				}
 			}
 			return true
 		})
-		handlers[fd.Name.Name] = hi
+		if strings.HasPrefix(fd.Name.Name, "handle") {
+			handlers[fd.Name.Name] = hi
+		}
 	}
 	sort.SliceStable(table, func(a, b int) bool { return table[a].cmd < table[b].cmd })
+	membersFiltered := unq(consts["membersFilteredCommand"])
 	var rows []string
+	membersHandler := ""
 	for _, t := range table {
 		hi, ok := handlers[t.handler]
 		if !ok {
 			return "", fmt.Errorf("handler %s not found", t.handler)
 		}
 		decodes := hi.decodes
-		if t.handler == "handleMembers" {
-			// one handler for two commands: the body is decoded only `if command == membersFilteredCommand`
-			decodes = t.cmd == consts["membersFilteredCommand"]
+		if t.cmd == "members" || t.cmd == membersFiltered {
+			membersHandler = t.handler
 		}
-		rows = append(rows, fmt.Sprintf("  (%s, %s, %v, %v)", q(t.cmd), q(t.handler), decodes, hi.data))
+		rows = append(rows, fmt.Sprintf("  (%s, %v, %v)", q(t.cmd), decodes, hi.data))
 	}
-	// the members special case must really be what the source says
-	hm := findFunc(f, "AgentIPC", "handleMembers")
+	// one handler serves members and members-filtered: the body is decoded only under a guard on the command
 	membersGuard := ""
-	if hm != nil {
+	if hm := findFunc(f, "AgentIPC", membersHandler); hm != nil {
+		env := ipcEnv(f, hm)
 		ast.Inspect(hm.Body, func(n ast.Node) bool {
 			if is, ok := n.(*ast.IfStmt); ok && membersGuard == "" {
 				found := false
 				ast.Inspect(is.Body, func(m ast.Node) bool {
-					if c, ok := m.(*ast.CallExpr); ok && exprString(c.Fun) == "client.dec.Decode" {
+					if c, ok := m.(*ast.CallExpr); ok && env.expr(c.Fun) == "$client.dec.Decode" {
 						found = true
 					}
 					return true
 				})
 				if found {
-					membersGuard = exprString(is.Cond)
+					membersGuard = env.expr(is.Cond)
 				}
 			}
 			return true
 		})
 	}
+	for i, t := range table {
+		if t.cmd == "members" && membersGuard != "" {
+			rows[i] = fmt.Sprintf("  (%s, %v, %v)", q(t.cmd), false, handlers[t.handler].data)
+		}
+	}
 
-	// ---- handleHandshake / handleAuth chains
-	chainOf := func(name string) ([][2]string, error) {
-		fd := findFunc(f, "AgentIPC", name)
-		if fd == nil {
-			return nil, fmt.Errorf("%s not found", name)
-		}
-		var chains [][][2]string
-		for _, st := range fd.Body.List {
-			if is, ok := st.(*ast.IfStmt); ok {
-				// skip `if err := client.dec.Decode(&req); err != nil { return … }`
-				if is.Init != nil && is.Else == nil {
-					continue
-				}
-				chains = append(chains, ifChain(is))
+	// ---- handleHandshake / handleAuth decisions (the handlers the switch dispatches these commands to)
+	handlerOf := func(cmd string) *ast.FuncDecl {
+		for _, t := range table {
+			if t.cmd == cmd {
+				return findFunc(f, "AgentIPC", t.handler)
 			}
 		}
-		if len(chains) != 1 {
-			return nil, fmt.Errorf("%s: expected one decision chain, found %d", name, len(chains))
-		}
-		return chains[0], nil
+		return nil
 	}
-	hsChain, err := chainOf("handleHandshake")
+	hsCmd, auCmd := unq(consts["handshakeCommand"]), unq(consts["authCommand"])
+	hsFd, auFd := handlerOf(hsCmd), handlerOf(auCmd)
+	if hsFd == nil || auFd == nil {
+		return "", fmt.Errorf("handshake / auth handler not found")
+	}
+	hsChain, err := decisionChain(ipcEnv(f, hsFd), hsFd)
 	if err != nil {
 		return "", err
 	}
-	auChain, err := chainOf("handleAuth")
+	auChain, err := decisionChain(ipcEnv(f, auFd), auFd)
 	if err != nil {
 		return "", err
 	}
-	// statements of handleHandshake / handleAuth outside the chain must not touch the connection state
-	writes := map[string]int{}
-	ast.Inspect(f, func(n ast.Node) bool {
-		switch s := n.(type) {
-		case *ast.AssignStmt:
-			for _, l := range s.Lhs {
-				switch exprString(l) {
-				case "client.version", "client.didAuth":
-					writes[exprString(l)]++
-				}
-			}
-		case *ast.IncDecStmt:
-			switch exprString(s.X) {
-			case "client.version", "client.didAuth":
-				writes[exprString(s.X)]++
-			}
-		case *ast.UnaryExpr:
-			if s.Op == token.AND {
-				switch exprString(s.X) {
-				case "client.version", "client.didAuth":
-					writes[exprString(s.X)] += 100 // address taken
-				}
-			}
-		}
-		return true
-	})
 	chainLean := func(ch [][2]string) string {
 		var xs []string
 		for _, c := range ch {
@@ -345,25 +474,23 @@ func genIpcGate(repo string) (string, error) {
 		}
 		return "[" + strings.Join(xs, ", ") + "]"
 	}
-	errStr := func(name string) string { return consts[name] }
 
 	var b strings.Builder
 	b.WriteString("-- GENERATED by /verif/extract from cmd/serf/command/agent/ipc.go — do not edit.\n")
+	b.WriteString("-- Expression text is normalised: roles ($ipc $client $hdr $command $seq $req $resp) for names, constants by value, operands ordered.\n")
 	b.WriteString("namespace SerfModel.Gen.IpcGate\n\n")
 	fmt.Fprintf(&b, "def minIPCVersion : Int := %s\ndef maxIPCVersion : Int := %s\n\n", consts["MinIPCVersion"], consts["MaxIPCVersion"])
-	fmt.Fprintf(&b, "/-- first gate of handleRequest: condition, error string replied, connection closed afterwards -/\ndef handshakeGate : String × String × Bool := (%s, %s, %v)\n", q(gates[0].cond), q(errStr(gates[0].errConst)), gates[0].closes)
-	fmt.Fprintf(&b, "/-- second gate -/\ndef authGate : String × String × Bool := (%s, %s, %v)\n\n", q(gates[1].cond), q(errStr(gates[1].errConst)), gates[1].closes)
-	fmt.Fprintf(&b, "/-- `default:` of the dispatch switch: error string, connection closed -/\ndef unknownCommand : String × Bool := (%s, %v)\n\n", q(errStr(defaultErr)), defaultCloses)
-	fmt.Fprintf(&b, "def handshakeCommand : String := %s\ndef authCommand : String := %s\n\n", q(consts["handshakeCommand"]), q(consts["authCommand"]))
-	b.WriteString("/-- dispatch switch: (command string, handler, handler decodes a request body, handler sends a response body) -/\n")
-	b.WriteString("def dispatch : List (String × String × Bool × Bool) := [\n" + strings.Join(rows, ",\n") + "\n]\n\n")
-	fmt.Fprintf(&b, "/-- guard under which handleMembers decodes a body -/\ndef membersBodyGuard : String := %s\n\n", q(membersGuard))
-	fmt.Fprintf(&b, "/-- decision chain of handleHandshake after the decode: (condition, what the branch does) -/\ndef handshakeChain : List (String × String) := %s\n", chainLean(hsChain))
-	fmt.Fprintf(&b, "/-- decision chain of handleAuth -/\ndef authChain : List (String × String) := %s\n\n", chainLean(auChain))
-	fmt.Fprintf(&b, "/-- error strings named in the chains -/\ndef errorStrings : List (String × String) := [(\"unsupportedIPCVersion\", %s), (\"duplicateHandshake\", %s), (\"invalidAuthToken\", %s)]\n\n",
-		q(consts["unsupportedIPCVersion"]), q(consts["duplicateHandshake"]), q(consts["invalidAuthToken"]))
-	fmt.Fprintf(&b, "/-- writes to client.version / client.didAuth anywhere in ipc.go (address-of counts 100) -/\ndef versionWrites : Nat := %d\ndef didAuthWrites : Nat := %d\n\nend SerfModel.Gen.IpcGate\n",
-		writes["client.version"], writes["client.didAuth"])
+	fmt.Fprintf(&b, "/-- first gate of handleRequest: condition, error string replied, connection closed afterwards -/\ndef handshakeGate : String × String × Bool := (%s, %s, %v)\n", q(gates[0].cond), q(gates[0].errText), gates[0].closes)
+	fmt.Fprintf(&b, "/-- second gate -/\ndef authGate : String × String × Bool := (%s, %s, %v)\n\n", q(gates[1].cond), q(gates[1].errText), gates[1].closes)
+	fmt.Fprintf(&b, "/-- `default:` of the dispatch switch: error string, connection closed -/\ndef unknownCommand : String × Bool := (%s, %v)\n\n", q(defaultErr), defaultCloses)
+	fmt.Fprintf(&b, "def handshakeCommand : String := %s\ndef authCommand : String := %s\n\n", q(hsCmd), q(auCmd))
+	b.WriteString("/-- dispatch switch: (command string, handler decodes a request body, handler sends a response body) -/\n")
+	b.WriteString("def dispatch : List (String × Bool × Bool) := [\n" + strings.Join(rows, ",\n") + "\n]\n\n")
+	fmt.Fprintf(&b, "/-- guard under which the members handler decodes a body -/\ndef membersBodyGuard : String := %s\n\n", q(membersGuard))
+	fmt.Fprintf(&b, "/-- decisions of the handshake handler after the decode: (condition, what the branch does) -/\ndef handshakeChain : List (String × String) := %s\n", chainLean(hsChain))
+	fmt.Fprintf(&b, "/-- decisions of the auth handler -/\ndef authChain : List (String × String) := %s\n\n", chainLean(auChain))
+	fmt.Fprintf(&b, "/-- writes to the fields version / didAuth anywhere in ipc.go (address-of counts 100) -/\ndef versionWrites : Nat := %d\ndef didAuthWrites : Nat := %d\n\nend SerfModel.Gen.IpcGate\n",
+		writes["version"], writes["didAuth"])
 	return b.String(), nil
 }
 
